@@ -24,6 +24,8 @@ CENTRES = {
     "rest": {"weights": [7, 1.5, 2.5, 2, 18], "k": 4, "free": 1, "smt": 1, "unique": True},
     "tar": {"weights": [6.5, 1, 4, 2, 19], "k": 3, "free": 1, "smt": 1, "unique": False},
 }
+# isla.solver._DEFAULTS / STD_COST_SETTINGS
+LIBRARY_DEFAULTS = {"weights": [6.5, 1, 4, 2, 19], "k": 3, "free": 10, "smt": 10, "unique": False}
 
 
 def warm():
@@ -84,7 +86,11 @@ def make_plan(run_seed: int, profile: Dict[str, Any]) -> Dict[str, Any]:
     rng = random.Random(run_seed)
     name = rng.choice(profile.get("formalizations", ["csv", "xml", "rest", "rest", "tar"]))
     c = CENTRES[name]
-    vary = rng.random() < 0.7
+    mode = rng.choice(["centre", "centre", "centre", "vary", "vary", "vary", "vary", "vary", "defaults", "defaults", "defaults"])
+    if mode == "defaults":
+        # second centre: what `ISLaSolver(grammar, formula)` without keyword arguments uses
+        c = dict(LIBRARY_DEFAULTS)
+    vary = mode == "vary"
     weights = list(c["weights"])
     if vary:
         weights = [max(0.0, round(w * rng.choice([0.5, 1, 1, 1.5, 2]) + rng.choice([0, 0, 0.5, 1]), 2)) for w in weights]
@@ -99,7 +105,7 @@ def make_plan(run_seed: int, profile: Dict[str, Any]) -> Dict[str, Any]:
     }
     return {
         "engine": ENGINE, "run_seed": run_seed, "phase": "dry",
-        "formalization": name, "variant": rng.choice(VARIANTS[name]),
+        "formalization": name, "variant": rng.choice(VARIANTS[name]), "settings_mode": mode,
         "settings": settings,
         "cost": {"strategy": rng.choice(["real", "real", "real", "noisy", "noisy", "random"]), "seed": rng.randrange(1 << 30),
                  "weights": weights, "k": c["k"] if not vary else rng.choice([c["k"], 2, 3, 4])},
